@@ -49,6 +49,21 @@ def can_return(g):
     return ok
 
 
+def returns_without(g, start, avoid):
+    """Is a `return` reachable from block `start` over normal edges without passing block `avoid`?"""
+    seen = set()
+    st = [start]
+    while st:
+        x = st.pop()
+        if x in seen or x == avoid:
+            continue
+        seen.add(x)
+        if g.blocks[x]["term"]["k"] == "return":
+            return True
+        st.extend(g.succ_blocks(x, False))
+    return False
+
+
 def loop_drivers(eng):
     """Map loop header -> (kind, block of the driving call, description) for loops driven by
     Iterator::next / Vec::pop, using the iterator expressions the interpreter evaluated."""
@@ -108,6 +123,8 @@ def iter1(eng, out):
             continue
         body = loops[hdr]
         out.obl("ITER-1", "loop:%s" % kind, (eng.name, nb))
+        dterm = g.blocks[nb]["term"]
+        is_pop_driver = dterm["k"] == "call" and dterm.get("callee") and dterm["callee"]["def"].endswith(("::pop", "::pop_front", "::pop_back"))
         # user code inside a hash-ordered loop: if it panics, the elements processed so far are an
         # order-dependent subset (worklists / vectors drained with pop are exempt: their owner's drop
         # glue finishes the job in any order)
@@ -149,6 +166,11 @@ def iter1(eng, out):
                     continue
                 if not effectful:
                     out.obl("ITER-1", "pure-search-exit", (eng.name, u))
+                    continue
+                if is_pop_driver and (not returns_without(g, v, nb) or (eng.return_states and eng.drv_at_return.get(nb, set()) <= {"0"})):
+                    # a helper that pops until it finds an unvisited node hands it to its caller's loop, which pops again:
+                    # the worklist is only ever left for good through `None`
+                    out.obl("ITER-1", "worklist-resumed", (eng.name, u))
                     continue
                 out.violate("ITER-1", "early-exit:%s" % kind, "a loop over a %s can stop before visiting every element (exit at %s:%s); which elements are processed then depends on hash/table order" % (
                     desc, g.blocks[u]["term"].get("file"), g.blocks[u]["term"].get("line")), where_of(g, u), entry=eng.name)
